@@ -1,7 +1,7 @@
 (* C08 — Pins and API records survive every encoding boundary; decoders never crash.
    Statements only; every proof is `exact <lemma of Proofs/C08_*.v>`.
    Quantification: every pin value / every decoded protobuf message (fields arbitrary or absent). *)
-From V Require Import Base.Common Base.C08_Str Model.C08_Codec Proofs.C08_Codec.
+From V Require Import Base.Common Base.C08_Str Model.C08_Codec Model.C08_Query Proofs.C08_Codec Proofs.C08_Query.
 Open Scope string_scope.
 Open Scope Z_scope.
 
@@ -58,3 +58,29 @@ Example wf_examples :
     = Ok (mk_pin (mk_opts 2 3 "n" 0 0 [] (Some (1790000000, 0%N)) [("k", "v"); ("", "e")] (Some "QmOld") ["/ip4/1.2.3.4/tcp/1/p2p/QmPeer"])
             (Some "QmData") 2 [TOk "QmA"; TOk "QmB"] (-1) None).
 Proof. vm_compute. repeat split. Qed.
+
+(* ---- query-string form of pin options (ToQuery / FromQuery) ---- *)
+
+(* options whose texts the trusted parsers accept and that contain no "," come back unchanged, except that metadata
+   entries with the empty key are dropped; for every oracle (parser outcomes) and every clock reading *)
+Theorem query_roundtrip orc now o : wf_q orc o = true ->
+  match to_query orc o with Ok q => from_query orc now zero_opts q | Err => Err end = Ok (lossy_q o).
+Proof. exact (query_roundtrip_l orc now o). Qed.
+Print Assumptions query_roundtrip.
+
+(* "%d" then strconv.Atoi, "%d" then strconv.ParseUint *)
+Theorem decimal_roundtrip z n : in_int64 z = true -> (n < 2 ^ 64)%N ->
+  atoi (print_int z) = Some z /\ parse_uint64 (print_uint n) = Some n.
+Proof. exact (fun Hz Hn => conj (atoi_print z Hz) (parse_uint64_print n Hn)). Qed.
+Print Assumptions decimal_roundtrip.
+
+Example wf_q_example :
+  let orc := mk_orc ["QmPeerA"; "QmPeerB"] ["QmOld"] [("/ip4/1.2.3.4/tcp/1/p2p/QmPeerA", true)]
+                    [("2026-09-22T10:40:00.5Z", (1790073600, 500000000%N))] [] in
+  let o := mk_opts (-1) 3 "a name, with comma" 1 1024 [TOk "QmPeerA"; TOk "QmPeerB"] (Some (1790073600, 500000000%N))
+                   [("", "dropped"); ("k", "v"); ("k2", "")] (Some "QmOld") ["/ip4/1.2.3.4/tcp/1/p2p/QmPeerA"] in
+  wf_q orc o = true /\
+  to_query orc o = Ok [("replication-min", "-1"); ("replication-max", "3"); ("name", "a name, with comma"); ("mode", "direct");
+                       ("shard-size", "1024"); ("user-allocations", "QmPeerA,QmPeerB"); ("expire-at", "2026-09-22T10:40:00.5Z");
+                       ("meta-k", "v"); ("meta-k2", ""); ("pin-update", "QmOld"); ("origins", "/ip4/1.2.3.4/tcp/1/p2p/QmPeerA")].
+Proof. vm_compute. split; reflexivity. Qed.
